@@ -261,6 +261,135 @@ fn cmap_structure_flags(d: &[u8]) -> Vec<String> {
     flags
 }
 
+/// cmap <-> maxp consistency of a subset (the library built that cmap itself): every glyph id a sub-table
+/// maps to exists; and, when the source cmap is known (`source`: char -> old glyph id, `gids`: new -> old),
+/// every Unicode sub-table entry names the glyph the source named for that character.
+fn cmap_glyph_flags(d: &[u8], num_glyphs: usize, source: Option<(&HashMap<u32, u16>, &[u16])>) -> Vec<String> {
+    use allsorts::tables::cmap::{Cmap, CmapSubtable, EncodingId, PlatformId};
+    let mut flags = vec![];
+    let cmap = match ReadScope::new(d).read::<Cmap<'_>>() {
+        Ok(c) => c,
+        Err(_) => return vec!["cmap-unreadable".to_string()],
+    };
+    for rec in cmap.encoding_records() {
+        let sub = match cmap.scope.offset(rec.offset as usize).read::<CmapSubtable<'_>>() {
+            Ok(s) => s,
+            Err(_) => {
+                flags.push(format!("cmap-subtable-{}-{}-unreadable", rec.platform_id.0, rec.encoding_id.0));
+                continue;
+            }
+        };
+        let unicode = rec.platform_id == PlatformId::UNICODE
+            || (rec.platform_id == PlatformId::WINDOWS && (rec.encoding_id == EncodingId(1) || rec.encoding_id == EncodingId(10)));
+        let mut bad_range: Option<(u32, u16)> = None;
+        let mut bad_glyph: Option<(u32, u16)> = None;
+        let _ = sub.mappings_fn(|ch, gid| {
+            if usize::from(gid) >= num_glyphs {
+                bad_range.get_or_insert((ch, gid));
+            } else if let (true, Some((src, gids))) = (unicode, source) {
+                if gid != 0 && src.get(&ch).copied() != gids.get(usize::from(gid)).copied() {
+                    bad_glyph.get_or_insert((ch, gid));
+                }
+            }
+        });
+        if let Some((ch, gid)) = bad_range {
+            flags.push(format!("cmap-maps-U+{:04X}-to-glyph-{}-of-{}", ch, gid, num_glyphs));
+        }
+        if let Some((ch, gid)) = bad_glyph {
+            flags.push(format!("cmap-maps-U+{:04X}-to-the-wrong-glyph-{}", ch, gid));
+        }
+    }
+    flags
+}
+
+/// groups (start, end, glyph) of a format 12 sub-table -> a (3,10) cmap table
+fn cmap12_bytes(groups: &[(u32, u32, u32)]) -> Vec<u8> {
+    let mut b = vec![0u8, 0, 0, 1, 0, 3, 0, 10, 0, 0, 0, 12];
+    b.extend_from_slice(&[0, 12, 0, 0]);
+    b.extend_from_slice(&((16 + 12 * groups.len()) as u32).to_be_bytes());
+    b.extend_from_slice(&0u32.to_be_bytes());
+    b.extend_from_slice(&(groups.len() as u32).to_be_bytes());
+    for (s, e, g) in groups {
+        b.extend_from_slice(&s.to_be_bytes());
+        b.extend_from_slice(&e.to_be_bytes());
+        b.extend_from_slice(&g.to_be_bytes());
+    }
+    b
+}
+fn cmap12_source(d: &[u8]) -> HashMap<u32, u16> {
+    let u32_ = |o: usize| -> u32 { d.get(o..o + 4).map(|b| u32::from_be_bytes([b[0], b[1], b[2], b[3]])).unwrap_or(0) };
+    let mut m = HashMap::new();
+    let n = u32_(24) as usize;
+    for i in 0..n.min(4096) {
+        let (s, e, g) = (u32_(28 + 12 * i), u32_(32 + 12 * i), u32_(36 + 12 * i));
+        for (k, ch) in (s..=e.min(s + 4096)).enumerate() {
+            m.entry(ch).or_insert((g as usize + k) as u16);
+        }
+    }
+    m
+}
+
+/// an optional 4th field for an `S` line on a TrueType fixture: a synthetic (3,10) format 12 cmap for the source
+/// font.  Derived from a hash of the line (own generator), so that the including harnesses' streams do not shift.
+/// Code points are drawn around the BMP / supplementary boundary, runs of consecutive code points map to
+/// consecutive glyphs, to one shared glyph, or to a consecutive run whose last glyph repeats.
+fn with_synthetic_cmap(line: String) -> String {
+    let parts: Vec<&str> = line.split('|').collect();
+    if parts.len() != 3 || !parts[1].ends_with(".ttf") {
+        return line;
+    }
+    let mut h: u64 = 0xcbf29ce484222325;
+    for b in line.bytes() {
+        h = (h ^ u64::from(b)).wrapping_mul(0x100000001b3);
+    }
+    let mut rng = Rng::new(h);
+    if !rng.chance(1, 2) {
+        return line;
+    }
+    let gids: Vec<u32> = parts[2].split(',').map(|g| g.parse().unwrap()).collect();
+    let real: Vec<u32> = gids.iter().copied().filter(|g| *g != 0).collect();
+    if real.is_empty() {
+        return line;
+    }
+    let mut groups: Vec<(u32, u32, u32)> = vec![];
+    let mut ch: u32 = *rng.pick(&[0x20u32, 0x41, 0xA0, 0x2010, 0xFFF0, 0x10000, 0x1F600]);
+    let ngroups = 1 + rng.below(6);
+    for _ in 0..ngroups {
+        let g = *rng.pick(&real);
+        match rng.below(5) {
+            0 => {
+                // a run of consecutive glyphs (glyphs outside the list are dropped by the subsetter)
+                let l = rng.below(4) as u32;
+                groups.push((ch, ch + l, g));
+                ch += l + 1;
+            }
+            1 | 2 => {
+                // consecutive code points sharing one glyph
+                let l = 2 + rng.below(3) as u32;
+                for k in 0..l {
+                    groups.push((ch + k, ch + k, g));
+                }
+                ch += l;
+            }
+            _ => {
+                // g, g', g' ... where g' is another retained glyph: in the subset these are often new ids n, n+1, n+1
+                let g2 = *rng.pick(&real);
+                groups.push((ch, ch, g));
+                groups.push((ch + 1, ch + 1, g2));
+                groups.push((ch + 2, ch + 2, g2));
+                ch += 3;
+            }
+        }
+        if rng.chance(1, 2) {
+            ch += 1 + rng.below(40) as u32;
+        }
+        if rng.chance(1, 4) && ch < 0x10000 {
+            ch = 0x10000 + rng.below(0x300) as u32;
+        }
+    }
+    format!("{}|{}", line, hex(&cmap12_bytes(&groups)))
+}
+
 fn fixture(path: &str) -> Vec<u8> {
     let repo = std::env::var("VERIF_REPO").unwrap_or_else(|_| "/repo".to_string());
     std::fs::read(format!("{}/tests/fonts/{}", repo, path)).unwrap_or_default()
@@ -332,7 +461,23 @@ pub fn run(input: &str) -> String {
                 Err(_) => return "err".to_string(),
             };
             let gids: Vec<u16> = parts[2].split(',').map(|g| g.parse().unwrap()).collect();
-            match subset::subset(&p, &gids) {
+            // optional 4th field: the source font carries this cmap instead of its own
+            let synthetic: Option<Vec<u8>> = parts.get(3).filter(|s| !s.is_empty()).map(|s| unhex(s));
+            let source = synthetic.as_ref().map(|c| cmap12_source(c));
+            let result = match &synthetic {
+                None => subset::subset(&p, &gids),
+                Some(c) => {
+                    let mut tables = HashMap::new();
+                    for t in p.table_tags().unwrap_or_default() {
+                        if let Ok(Some(d)) = p.table_data(t) {
+                            tables.insert(t, d.into_owned());
+                        }
+                    }
+                    tables.insert(tag::CMAP, c.clone());
+                    subset::subset(&MapProvider { tables }, &gids)
+                }
+            };
+            match result {
                 Ok(b) => {
                     let mut flags = consistency(&b, gids.len());
                     // the cmap of a subset is built by the library: its structure is judged too
@@ -340,6 +485,14 @@ pub fn run(input: &str) -> String {
                         if let Ok(p2) = fd.table_provider(0) {
                             if let Ok(Some(c)) = p2.table_data(tag::CMAP) {
                                 flags.extend(cmap_structure_flags(&c));
+                                let ng = p2
+                                    .table_data(tag::MAXP)
+                                    .ok()
+                                    .flatten()
+                                    .and_then(|d| ReadScope::new(&d).read::<MaxpTable>().ok())
+                                    .map(|m| usize::from(m.num_glyphs))
+                                    .unwrap_or(0);
+                                flags.extend(cmap_glyph_flags(&c, ng, source.as_ref().map(|s| (s, gids.as_slice()))));
                             }
                         }
                     }
@@ -610,6 +763,10 @@ fn cff_subset_with_data_size(rng: &mut Rng, lens: &[usize], target: usize) -> Ve
 }
 
 pub fn gen(rng: &mut Rng) -> String {
+    with_synthetic_cmap(gen_plain(rng))
+}
+
+fn gen_plain(rng: &mut Rng) -> String {
     match if std::env::var_os("C09_BIG").is_some() { 11 } else { rng.below(12) } {
         0 | 2 | 3 => {
             let (f, n) = *rng.pick(SUBSET_FONTS);
